@@ -8,6 +8,7 @@ import Gama.Model.MemRep
 import Gama.Model.MatVec
 import Gama.Model.MatInvert
 import Gama.Model.SymChol
+import Gama.Gen.DimChecks
 open Gama Gama.Proto Gama.MatVec
 
 namespace C15
@@ -276,6 +277,8 @@ def algebra (isFloat : Bool) (name : String) (ops : List (Operand K)) : String :
   | "sub", [.V a, .V b] => outV "V" (vecSub a b)
   | "addeq", [.V a, .V b] => outV "V" (vecAdd a b)       -- add(x, *this)
   | "subeq", [.V a, .V b] => outV "V" (vecSub a b)
+  | "add", [.W a, .W b] => outV "W" (vecAdd a b)         -- TransVec::operator+ : TransVec t(dim()); add(x, t)
+  | "sub", [.W a, .W b] => outV "W" (vecSub a b)
   | "add", [.S A, .S B] => outS (symAdd A B)
   | "sub", [.S A, .S B] => outS (symSub A B)
   | "addf", [.S A, .S B] => outS (symZipFree (· + ·) A B)
@@ -367,9 +370,26 @@ def algebra (isFloat : Bool) (name : String) (ops : List (Operand K)) : String :
     outM (.ok ⟨A.cols, A.rows, arrOf (A.cols * A.rows) (pinvFrom A.rows A.cols tol (fnOf U.data) (fnOf W) (fnOf V.data))⟩)
   | _, _ => "bad-op"
 
+/-- `guard <entry name> r1 c1 r2 c2`: the guard of the table regenerated from lib/matvec
+    (Gen/DimChecks.lean) evaluated on the reported dimensions of the two operands; a local result
+    object is constructed with the dimensions of `*this`, so `res.size() = this->size()` -/
+def guardLine (a : List String) : String :=
+  match a with
+  | [name, r1, c1, r2, c2] =>
+    match DimCheck.find? Gen.DimChecks.table name, r1.toNat?, c1.toNat?, r2.toNat?, c2.toNat? with
+    | some e, some r1, some c1, some r2, some c2 =>
+      let sa : DimCheck.Shape := ⟨r1, c1⟩
+      let sb : DimCheck.Shape := ⟨r2, c2⟩
+      let nr := DimCheck.sizeOf e.ka sa
+      let b2s (b : Bool) : String := if b then "1" else "0"
+      s!"guard {b2s (DimCheck.guardFires e sa sb nr)} covers {b2s (DimCheck.covers e)} conforming {b2s (decide (DimCheck.conforming e.cls e.ka e.kb sa sb nr))}"
+    | _, _, _, _, _ => "bad-op"
+  | _ => "bad-op"
+
 def step (isFloat : Bool) (s : Sess K) (line : String) : Sess K × String :=
   match tokens line with
   | [] => (s, "bad-op")
+  | "guard" :: rest => (s, guardLine rest)
   | "op" :: name :: rest =>
     match parseOperands (K := K) rest #[] with
     | some ops => (s, algebra isFloat name ops.toList)
